@@ -809,6 +809,34 @@ def run(chk):
             is_cc = any(ls2[i].text == ":" and ls2[i].cls == "op" and ls2[i + 1].text == "]" for i in range(len(ls2) - 1))
             for st in (["space", "newline", "comment"] if thorough else ["space", "comment"]):
                 (colon_close if is_cc else rej).append((layout(ls2, st, rng), ls2, "missing-operand"))
+    # juxtaposition matrix: <complete operand> directly followed by <anything that starts an operand>, with and
+    # without a blank; every such text is malformed (no operator between two operands).  A token with
+    # CheckForPostTraverse followed by a path / `[` / `.[` is the postfix syntax and is left out.
+    lefts = [("1", False), ("\"s\"", False), ("true", False), ("length", False), ("keys", True), (".a", True), ("$x", True), (".", False),
+             ("(1)", True), ("[1]", True), ("{\"k\": 1}", True), ("has(0)", True), ("select(.a)", True)]
+    rights = [(f + ("(.b)" if PREFIX_OPS[f][2] == 1 else "(.b; 2)"), "fn") for f in PREFIX_OPS] + \
+             [(w, "word") for w in ("length", "keys", "not", "min", "sort", "to_entries")] + \
+             [("2", "lit"), ("\"t\"", "lit"), ("null", "lit"), ("0x1F", "lit"), (".b", "path"), (".\"b\"", "path"), ("$y", "var"), (".", "self"), ("..", "self"),
+              ("(2)", "paren"), ("[2]", "collect"), ("[]", "collect"), ("{\"q\": 2}", "object"), (".[0]", "index"), (".[]", "index")]
+    njux = 0
+    for ltxt, lcpt in lefts:
+        for rtxt, rkind in rights:
+            if lcpt and rkind in ("path", "collect", "index"):
+                continue        # a.b  a[0]  a.[0]: postfix traversal
+            if ltxt == "." and rkind in ("self", "path", "index", "collect"):
+                continue        # `. .` is fine as text but `..` / `.[` / `.b` are other tokens; keep the matrix to clear cases
+            texts = [ltxt + " " + rtxt, ltxt + "\n" + rtxt]
+            lend, r0 = ltxt[-1], rtxt[0]
+            tight_ok = (lend in ")]}\"" and r0 in "([{\"$.") or (lend.isalnum() and ltxt[0] not in ".$" and r0 in "([{\"$") \
+                or (ltxt[0] in ".$" and len(ltxt) > 1 and r0 in "({")
+            if tight_ok:
+                texts.append(ltxt + rtxt)
+            for wrap in (False, True):
+                for tx in texts:
+                    full = ("[ .c , " + tx + " ] | .[0]") if wrap else tx
+                    rej.append((full, None, "juxtaposed-operands"))
+                    njux += 1
+    chk.extra["juxtaposition_cases"] = njux
     rresp = vlib.yqh_parallel(parse_reqs([r[0] for r in rej]))
     rimpl = [impl_class(r) for r in rresp]
     nrej_bad = 0
